@@ -356,6 +356,33 @@ type c14res struct {
 //   - the probe right after a save for the same hash must FIND an entry; what can be seen of
 //     that from outside is use, a move or a score; it is demanded only when every logged save
 //     for the hash carries a non-zero move (then a found entry always shows).
+// c14expect: what a probe o must yield when the entry it finds carries the payload of the save c
+// (the contract of C14: depth test, mate-range adjustment by ply, bound type against the window).
+func c14expect(c c14op, o c14op) c14res {
+	if c.depth < o.depth {
+		return c14res{0, false, c.mv}
+	}
+	score := c.score
+	if int(score) > c14inf-100 {
+		score -= int16(o.ply)
+	} else if int(score) < -c14inf+100 {
+		score += int16(o.ply)
+	}
+	switch c.nt & 3 {
+	case 1:
+		if score <= o.alpha {
+			return c14res{o.alpha, true, c.mv}
+		}
+	case 2:
+		if score >= o.beta {
+			return c14res{o.beta, true, c.mv}
+		}
+	case 0:
+		return c14res{score, true, c.mv}
+	}
+	return c14res{score, false, c.mv}
+}
+
 func c14judge(i int, o c14op, res c14res, log map[uint64][]c14op, justSaved bool) string {
 	if o.hash == 0 {
 		return "" // outside the property's quantifier
@@ -401,6 +428,26 @@ func c14judge(i int, o c14op, res c14res, log map[uint64][]c14op, justSaved bool
 		}
 		if !ok {
 			return fmt.Sprintf("FAIL op %d: suggested move %d for hash %x was never stored with it", i, res.mv, o.hash)
+		}
+	}
+	if justSaved {
+		// "an entry just stored is found by the next probe for it": the result is the one Get computes from the payload
+		// just stored, or from an EARLIER payload for the same hash that can legitimately shadow it - one that is deeper
+		// (a probe it answers is answered at least as well) or that the age rule protects (its stored 6-bit age is
+		// smaller than the new age). A shallower, not younger stale copy must not shadow the entry just stored.
+		sv := saves[len(saves)-1]
+		ok := false
+		for k, c := range saves {
+			if k == len(saves)-1 || c.depth > sv.depth || (c.age&63) < sv.age {
+				if c14expect(c, o) == res {
+					ok = true
+					break
+				}
+			}
+		}
+		if !ok {
+			return fmt.Sprintf("FAIL op %d: the probe right after the store of hash %x (depth %d score %d type %d move %d age %d) yields (%d,%v,%d): neither what the entry just stored dictates nor what a deeper or age-protected earlier entry for the hash dictates",
+				i, o.hash, sv.depth, sv.score, sv.nt, sv.mv, sv.age, res.score, res.use, res.mv)
 		}
 	}
 	if justSaved && !res.use && res.mv == 0 && res.score == 0 {
